@@ -20,6 +20,7 @@ func TestVerifC16All(t *testing.T) {
 		Hbq  []hbqCase  `json:"hbq"`
 		Reg  []regCase  `json:"reg"`
 		Mat  []matCase  `json:"mat"`
+		Win  []winCase  `json:"win"`
 	}
 	if err := json.Unmarshal(raw, &in); err != nil {
 		t.Fatal(err)
@@ -59,6 +60,13 @@ func TestVerifC16All(t *testing.T) {
 			r[i] = runMatCase(c)
 		}
 		out["mat"] = r
+	}
+	if in.Win != nil {
+		r := make([]winRes, len(in.Win))
+		for i, c := range in.Win {
+			r[i] = runWinCase(c)
+		}
+		out["win"] = r
 	}
 	vwriteOut(t, out)
 }
